@@ -2,11 +2,16 @@
 
 Complete sweep of the five ancillary tables (covalent radii, crystal structures, K emission lines,
 magnetic form factors, Cromer-Mann coefficients) over all 119 elements in every configuration of
-the shared configuration graph, against independent readers; closed forms of the form factors."""
+the shared configuration graph, against independent readers; closed forms of the form factors.
+
+First access (added after round 5): the ancillary attributes are delayed-load properties, so what a process reads
+FIRST decides which code runs the loader.  Every attribute named in the statement is the first access of a fresh
+forked interpreter - one process per (attribute, way of access, table configuration) - and what that access and
+everything after it serves is compared with the same independent readers."""
 import math
 from ..common import Acc, load_pt, close, rotate, MachineryError
 from ..ref import tables as rt
-from ..configs import QUICK_PATHS, all_paths, apply_event, judged_tables, snippet as _snippet
+from ..configs import apply_event, judged_tables, snippet as _snippet
 
 META = dict(
     level="model_checking", engine="E1",
@@ -19,9 +24,22 @@ META = dict(
           "table: every element, every ion (all charges of element.ions), every isotope and every isotope ion evaluates "
           ".xray.f0(Q) on the Q grid to the closed form of the entry written for its symbol and charge, and an atom "
           "without an entry serves no number; the other four tables are read through every isotope, ion and isotope ion "
-          "as well (the element's entry or nothing); cells are distinct by construction"),
-    bound=dict(quick="6 configuration paths x all elements x all five tables (exhaustive over the tables)",
-               thorough="all configuration paths up to length 4 x the same"),
+          "as well (the element's entry or nothing); cells are distinct by construction.  "
+          "FIRST ACCESS: one fresh forked interpreter (the coordinating process never imports the library) per "
+          "(attribute in covalent_radius, covalent_radius_uncertainty, covalent_radius_units, crystal_structure, K_alpha, "
+          "K_beta1, K_alpha_units, K_beta1_units, magnetic_ff, xray) x (way of access: getattr, getattr with default, "
+          "hasattr - each on an element with and on one without an entry -, table.list('symbol', attr), through an "
+          "isotope, an ion, an isotope ion) x (public table; private table whose group was initialised as the first "
+          "touch of the group in the process; private table on which nothing was initialised - its own answer is not "
+          "judged, the public table's is); judged in this order: the value served by that very access, the attribute "
+          "over all elements before anything else is read, the other attributes of the group over all elements, the "
+          "complete sweep of the group in the touched table and in the other kind of table (a private table created "
+          "afterwards / the public table)"),
+    bound=dict(quick="9 configuration paths x all elements x all five tables (exhaustive over the tables); 203 "
+                     "first-access processes (10 attributes x up to 9 ways x 3 table configurations)",
+               thorough="all orderings of the 4 configuration events up to length 4 + the fixed quick paths x the same; "
+                        "first access additionally: every ordered pair (first attribute, second attribute) and every "
+                        "element as the first one asked for every attribute"),
     assumptions=["the embedded table text is the source of truth", "crystal-structure ownership is taken from the trailing "
                  "#Sym comment of each list entry when that label is a valid symbol occurring exactly once",
                  "Ho2+ J is listed twice in the CrysFML data: either record accepted",
@@ -32,7 +50,11 @@ META = dict(
                  "an atom whose symbol and charge have no Cromer-Mann entry may raise, return None or NaN (all 'no data')",
                  "an isotope, ion or isotope ion has no covalent-radius / structure / emission / magnetic entry of its "
                  "own: it may serve its element's entry (same object, equal data, or equal records) or nothing; an ion may "
-                 "serve the magnetic form factors of its own charge state only"],
+                 "serve the magnetic form factors of its own charge state only",
+                 "first access: an element without an entry may answer None or have no attribute (hasattr may say either, "
+                 "the value must be None); the *_units attributes are judged on elements with an entry only; what an "
+                 "uninitialised private table answers is not judged; table.list() is judged by which symbols it prints and, "
+                 "for numeric attributes, by the number printed"],
     level_text="complete over the finite domain (119 elements x 97 radii, 104 structure slots, 91 emission rows, 344 magnetic "
                "records / 98 charge states, 211 Cromer-Mann entries, and every isotope / ion / isotope-ion object of the table) "
                "in each explored configuration; Q on a fixed grid",
@@ -79,43 +101,9 @@ def load_cm():
     return out if isinstance(out, dict) else None
 
 
-def sweep(pt, T, label, path, acc):
-    cells = 0
+def crystal_expected(T):
+    """{Z: (how, value)}: the structure entry that belongs to element Z of table T."""
     symbols = dict((el.symbol, el) for el in T)
-
-    def bad(rule, key, expected, observed, code):
-        acc.violation("%s:%s" % (rule, "public" if label == "public" else "private"),
-                      dict(path=list(path), table=label, key=key, rule=rule),
-                      expected=expected, observed=observed, standalone=_snippet(path, label, code))
-
-    # ---- covalent radius
-    radii = rt.covalent_radii()
-    for el in T:
-        Z = el.number
-        if Z == 0:
-            continue
-        code = "print(T[%d].covalent_radius, T[%d].covalent_radius_uncertainty)" % (Z, Z)
-        want = radii.get(Z)
-        cells += 2
-        try:
-            r = getattr(el, "covalent_radius", None)
-            u = getattr(el, "covalent_radius_uncertainty", None)
-        except Exception as e:
-            bad("radius-raises", [Z], want, "%s: %s" % (type(e).__name__, e), code)
-            continue
-        if want is None:
-            if r is not None or u is not None:
-                bad("radius-without-entry", [Z], None, (r, u), code)
-        else:
-            if not close(r, want[1], 1e-12):
-                bad("radius", [Z], want[1], r, code)
-            if not close(u, want[2], 1e-12, 1e-15):
-                bad("radius-uncertainty", [Z], want[2], u, code)
-    cells += 1
-    if getattr(T.Fe, "covalent_radius_units", None) != "angstrom":
-        bad("radius-units", [26], "angstrom", getattr(T.Fe, "covalent_radius_units", None), "print(T.Fe.covalent_radius_units)")
-
-    # ---- crystal structure
     slots = rt.crystal_structures()
     labels = {}
     for i, v, lab in slots:
@@ -129,187 +117,241 @@ def sweep(pt, T, label, path, acc):
             # no usable label points at element i: use the slot index (documented: list index is Z)
             if not (lab in symbols and len(labels[lab]) == 1):
                 expected[i] = ("index", v)
-    for el in T:
-        Z = el.number
-        code = "print(getattr(T[%d], 'crystal_structure', 'absent'))" % Z
+    return expected
+
+
+def sweep(pt, T, label, path, acc, groups=None, origin=None):
+    """groups: None = all of 'radius', 'crystal', 'lines', 'magnetic', 'atoms'; origin: None (a configuration path)
+    or (case fields, snippet prelude) of a first-access case."""
+    cells = 0
+    symbols = dict((el.symbol, el) for el in T)
+
+    def want_group(g):
+        return groups is None or g in groups
+
+    def bad(rule, key, expected, observed, code):
+        if origin is None:
+            case, alone = dict(path=list(path), table=label, key=key, rule=rule), _snippet(path, label, code)
+        else:
+            case, alone = dict(origin[0], table=label, key=key, rule=rule), origin[1] + "T = tables[%r]\n" % label + code + "\n"
+        acc.violation("%s:%s" % (rule, "public" if label == "public" else "private"), case,
+                      expected=expected, observed=observed, standalone=alone)
+
+    # ---- covalent radius
+    if want_group('radius'):
+        radii = rt.covalent_radii()
+        for el in T:
+            Z = el.number
+            if Z == 0:
+                continue
+            code = "print(T[%d].covalent_radius, T[%d].covalent_radius_uncertainty)" % (Z, Z)
+            want = radii.get(Z)
+            cells += 2
+            try:
+                r = getattr(el, "covalent_radius", None)
+                u = getattr(el, "covalent_radius_uncertainty", None)
+            except Exception as e:
+                bad("radius-raises", [Z], want, "%s: %s" % (type(e).__name__, e), code)
+                continue
+            if want is None:
+                if r is not None or u is not None:
+                    bad("radius-without-entry", [Z], None, (r, u), code)
+            else:
+                if not close(r, want[1], 1e-12):
+                    bad("radius", [Z], want[1], r, code)
+                if not close(u, want[2], 1e-12, 1e-15):
+                    bad("radius-uncertainty", [Z], want[2], u, code)
         cells += 1
-        try:
-            got = getattr(el, "crystal_structure", None)
-        except Exception as e:
-            bad("crystal-raises", [Z], expected.get(Z), "%s: %s" % (type(e).__name__, e), code)
-            continue
-        if Z in expected:
-            how, want = expected[Z]
-            if got != want:
-                bad("crystal", [Z], want, got, code)
-        elif got is not None:
-            bad("crystal-without-entry", [Z], None, got, code)
+        if getattr(T.Fe, "covalent_radius_units", None) != "angstrom":
+            bad("radius-units", [26], "angstrom", getattr(T.Fe, "covalent_radius_units", None), "print(T.Fe.covalent_radius_units)")
+
+    # ---- crystal structure
+    if want_group('crystal'):
+        expected = crystal_expected(T)
+        for el in T:
+            Z = el.number
+            code = "print(getattr(T[%d], 'crystal_structure', 'absent'))" % Z
+            cells += 1
+            try:
+                got = getattr(el, "crystal_structure", None)
+            except Exception as e:
+                bad("crystal-raises", [Z], expected.get(Z), "%s: %s" % (type(e).__name__, e), code)
+                continue
+            if Z in expected:
+                how, want = expected[Z]
+                if got != want:
+                    bad("crystal", [Z], want, got, code)
+            elif got is not None:
+                bad("crystal-without-entry", [Z], None, got, code)
 
     # ---- emission lines
-    lines = rt.spectral_lines()
-    for sym in lines:
-        if sym not in symbols:
-            raise MachineryError("spectral line row for unknown symbol %s" % sym)
-    for el in T:
-        Z = el.number
-        code = "print(getattr(T[%d], 'K_alpha', 'absent'), getattr(T[%d], 'K_beta1', 'absent'))" % (Z, Z)
+    if want_group('lines'):
+        lines = rt.spectral_lines()
+        for sym in lines:
+            if sym not in symbols:
+                raise MachineryError("spectral line row for unknown symbol %s" % sym)
+        for el in T:
+            Z = el.number
+            code = "print(getattr(T[%d], 'K_alpha', 'absent'), getattr(T[%d], 'K_beta1', 'absent'))" % (Z, Z)
+            cells += 2
+            try:
+                ka = getattr(el, "K_alpha", None)
+                kb = getattr(el, "K_beta1", None)
+            except Exception as e:
+                bad("lines-raises", [Z], lines.get(el.symbol), "%s: %s" % (type(e).__name__, e), code)
+                continue
+            want = lines.get(el.symbol)
+            if want is None:
+                if ka is not None or kb is not None:
+                    bad("lines-without-entry", [Z], None, (ka, kb), code)
+            else:
+                if not close(ka, want[0], 1e-12):
+                    bad("lines-K_alpha", [Z], want[0], ka, code)
+                if not close(kb, want[1], 1e-12):
+                    bad("lines-K_beta1", [Z], want[1], kb, code)
         cells += 2
-        try:
-            ka = getattr(el, "K_alpha", None)
-            kb = getattr(el, "K_beta1", None)
-        except Exception as e:
-            bad("lines-raises", [Z], lines.get(el.symbol), "%s: %s" % (type(e).__name__, e), code)
-            continue
-        want = lines.get(el.symbol)
-        if want is None:
-            if ka is not None or kb is not None:
-                bad("lines-without-entry", [Z], None, (ka, kb), code)
-        else:
-            if not close(ka, want[0], 1e-12):
-                bad("lines-K_alpha", [Z], want[0], ka, code)
-            if not close(kb, want[1], 1e-12):
-                bad("lines-K_beta1", [Z], want[1], kb, code)
-    cells += 2
-    for u in ("K_alpha_units", "K_beta1_units"):
-        try:
-            gu = getattr(T.Cu, u)
-        except Exception as e:
-            gu = "%s: %s" % (type(e).__name__, e)
-        if gu != "angstrom":
-            bad("lines-units", [29, u], "angstrom", gu, "print(T.Cu.%s)" % u)
+        for u in ("K_alpha_units", "K_beta1_units"):
+            try:
+                gu = getattr(T.Cu, u)
+            except Exception as e:
+                gu = "%s: %s" % (type(e).__name__, e)
+            if gu != "angstrom":
+                bad("lines-units", [29, u], "angstrom", gu, "print(T.Cu.%s)" % u)
 
     # ---- magnetic form factors
-    recs = rt.magnetic_records()
-    want_m = {}     # symbol -> charge -> kind -> [coeffs alternatives]
-    for kind, sym, q, c in recs:
-        want_m.setdefault(sym, {}).setdefault(q, {}).setdefault(kind, []).append(c)
-    for sym in want_m:
-        if sym not in symbols:
-            raise MachineryError("magnetic record for unknown symbol %s" % sym)
-    for el in T:
-        Z, sym = el.number, el.symbol
-        code = "print(dict((q, vars(m)) for q, m in getattr(T[%d], 'magnetic_ff', {}).items()))" % Z
-        cells += 1
-        try:
-            got = getattr(el, "magnetic_ff", None)
-        except Exception as e:
-            bad("magnetic-raises", [Z], sorted(want_m.get(sym, {})), "%s: %s" % (type(e).__name__, e), code)
-            continue
-        want = want_m.get(sym)
-        if want is None:
-            if got:
-                bad("magnetic-without-entry", [Z], None, sorted(got), code)
-            continue
-        if not isinstance(got, dict) or sorted(got) != sorted(want):
-            bad("magnetic-charges", [Z], sorted(want), sorted(got) if isinstance(got, dict) else got, code)
-            continue
-        for q in sorted(want):
-            m = got[q]
-            for kind in ("j0", "J", "j2", "j4", "j6"):
-                cells += 1
-                alts = want[q].get(kind)
-                has = hasattr(m, kind)
-                if alts is None:
-                    if has:
-                        bad("magnetic-kind-without-entry:" + kind, [Z, q], "absent", getattr(m, kind), code)
-                    continue
-                if not has:
-                    bad("magnetic-kind-missing:" + kind, [Z, q], alts[0], "absent", code)
-                    continue
-                c = tuple(getattr(m, kind))
-                if not any(len(c) == 7 and all(close(x, y, 1e-12, 1e-15) for x, y in zip(c, a)) for a in alts):
-                    bad("magnetic-coefficients:" + kind, [Z, q], alts, c, code)
-                    continue
-                ref_c = [a for a in alts if all(close(x, y, 1e-12, 1e-15) for x, y in zip(c, a))][0]
-                fn = getattr(m, kind + "_Q")
-                for Q in QGRID:
+    if want_group('magnetic'):
+        recs = rt.magnetic_records()
+        want_m = {}     # symbol -> charge -> kind -> [coeffs alternatives]
+        for kind, sym, q, c in recs:
+            want_m.setdefault(sym, {}).setdefault(q, {}).setdefault(kind, []).append(c)
+        for sym in want_m:
+            if sym not in symbols:
+                raise MachineryError("magnetic record for unknown symbol %s" % sym)
+        for el in T:
+            Z, sym = el.number, el.symbol
+            code = "print(dict((q, vars(m)) for q, m in getattr(T[%d], 'magnetic_ff', {}).items()))" % Z
+            cells += 1
+            try:
+                got = getattr(el, "magnetic_ff", None)
+            except Exception as e:
+                bad("magnetic-raises", [Z], sorted(want_m.get(sym, {})), "%s: %s" % (type(e).__name__, e), code)
+                continue
+            want = want_m.get(sym)
+            if want is None:
+                if got:
+                    bad("magnetic-without-entry", [Z], None, sorted(got), code)
+                continue
+            if not isinstance(got, dict) or sorted(got) != sorted(want):
+                bad("magnetic-charges", [Z], sorted(want), sorted(got) if isinstance(got, dict) else got, code)
+                continue
+            for q in sorted(want):
+                m = got[q]
+                for kind in ("j0", "J", "j2", "j4", "j6"):
                     cells += 1
-                    wantv = ff0(ref_c, Q) if kind in ("j0", "J") else ffn(ref_c, Q)
-                    gotv = float(fn(Q))
-                    if not close(gotv, wantv, 1e-9, 1e-12):
-                        bad("magnetic-formfactor:" + kind, [Z, q, Q], wantv, gotv,
-                            "print(T[%d].magnetic_ff[%d].%s_Q(%r))" % (Z, q, kind, Q))
-                        break
-                # the same grid as one float64 array, evaluated twice (the caller's array must not be altered and
-                # the second evaluation must give the same, correct, values)
-                import numpy as np
-                Qarr = np.array(QGRID, dtype=float)
-                cells += 1
-                try:
-                    v1 = np.asarray(fn(Qarr), dtype=float).tolist()
-                    same = Qarr.tolist() == list(QGRID)
-                    v2 = np.asarray(fn(Qarr), dtype=float).tolist()
-                except Exception as e:
-                    bad("magnetic-formfactor-vector-raises:" + kind, [Z, q], "values", "%s: %s" % (type(e).__name__, e),
-                        "import numpy\nprint(T[%d].magnetic_ff[%d].%s_Q(numpy.array(%r)))" % (Z, q, kind, list(QGRID)))
-                else:
-                    wantv = [ff0(ref_c, Q) if kind in ("j0", "J") else ffn(ref_c, Q) for Q in QGRID]
-                    vcode = ("import numpy\nQ = numpy.array(%r)\nm = T[%d].magnetic_ff[%d]\nprint(m.%s_Q(Q)); print(Q); print(m.%s_Q(Q))"
-                             % (list(QGRID), Z, q, kind, kind))
-                    if not same:
-                        bad("magnetic-formfactor-alters-its-argument:" + kind, [Z, q], list(QGRID), Qarr.tolist(), vcode)
-                    elif not all(close(a, b, 1e-9, 1e-12) for a, b in zip(v1, wantv)) or \
-                            not all(close(a, b, 1e-9, 1e-12) for a, b in zip(v2, wantv)) or len(v1) != len(wantv):
-                        bad("magnetic-formfactor-vector:" + kind, [Z, q], wantv, (v1, v2), vcode)
-                if kind == "j0":
-                    cells += 2
-                    v0 = float(m.j0_Q(0.0))
-                    if abs(v0 - 1.0) > 0.005:
-                        bad("magnetic-j0-at-0", [Z, q], "1 +- 0.5%", v0, "print(T[%d].magnetic_ff[%d].j0_Q(0))" % (Z, q))
-                    if tuple(m.M) != c or not close(float(m.M_Q(0.5)), ff0(ref_c, 0.5), 1e-9):
-                        bad("magnetic-M-is-j0", [Z, q], c, tuple(m.M), "print(T[%d].magnetic_ff[%d].M)" % (Z, q))
-                elif kind in ("j2", "j4", "j6"):
+                    alts = want[q].get(kind)
+                    has = hasattr(m, kind)
+                    if alts is None:
+                        if has:
+                            bad("magnetic-kind-without-entry:" + kind, [Z, q], "absent", getattr(m, kind), code)
+                        continue
+                    if not has:
+                        bad("magnetic-kind-missing:" + kind, [Z, q], alts[0], "absent", code)
+                        continue
+                    c = tuple(getattr(m, kind))
+                    if not any(len(c) == 7 and all(close(x, y, 1e-12, 1e-15) for x, y in zip(c, a)) for a in alts):
+                        bad("magnetic-coefficients:" + kind, [Z, q], alts, c, code)
+                        continue
+                    ref_c = [a for a in alts if all(close(x, y, 1e-12, 1e-15) for x, y in zip(c, a))][0]
+                    fn = getattr(m, kind + "_Q")
+                    for Q in QGRID:
+                        cells += 1
+                        wantv = ff0(ref_c, Q) if kind in ("j0", "J") else ffn(ref_c, Q)
+                        gotv = float(fn(Q))
+                        if not close(gotv, wantv, 1e-9, 1e-12):
+                            bad("magnetic-formfactor:" + kind, [Z, q, Q], wantv, gotv,
+                                "print(T[%d].magnetic_ff[%d].%s_Q(%r))" % (Z, q, kind, Q))
+                            break
+                    # the same grid as one float64 array, evaluated twice (the caller's array must not be altered and
+                    # the second evaluation must give the same, correct, values)
+                    import numpy as np
+                    Qarr = np.array(QGRID, dtype=float)
                     cells += 1
-                    v0 = float(fn(0.0))
-                    if abs(v0) > 1e-12:
-                        bad("magnetic-jn-at-0:" + kind, [Z, q], 0.0, v0, "print(T[%d].magnetic_ff[%d].%s_Q(0))" % (Z, q, kind))
+                    try:
+                        v1 = np.asarray(fn(Qarr), dtype=float).tolist()
+                        same = Qarr.tolist() == list(QGRID)
+                        v2 = np.asarray(fn(Qarr), dtype=float).tolist()
+                    except Exception as e:
+                        bad("magnetic-formfactor-vector-raises:" + kind, [Z, q], "values", "%s: %s" % (type(e).__name__, e),
+                            "import numpy\nprint(T[%d].magnetic_ff[%d].%s_Q(numpy.array(%r)))" % (Z, q, kind, list(QGRID)))
+                    else:
+                        wantv = [ff0(ref_c, Q) if kind in ("j0", "J") else ffn(ref_c, Q) for Q in QGRID]
+                        vcode = ("import numpy\nQ = numpy.array(%r)\nm = T[%d].magnetic_ff[%d]\nprint(m.%s_Q(Q)); print(Q); print(m.%s_Q(Q))"
+                                 % (list(QGRID), Z, q, kind, kind))
+                        if not same:
+                            bad("magnetic-formfactor-alters-its-argument:" + kind, [Z, q], list(QGRID), Qarr.tolist(), vcode)
+                        elif not all(close(a, b, 1e-9, 1e-12) for a, b in zip(v1, wantv)) or \
+                                not all(close(a, b, 1e-9, 1e-12) for a, b in zip(v2, wantv)) or len(v1) != len(wantv):
+                            bad("magnetic-formfactor-vector:" + kind, [Z, q], wantv, (v1, v2), vcode)
+                    if kind == "j0":
+                        cells += 2
+                        v0 = float(m.j0_Q(0.0))
+                        if abs(v0 - 1.0) > 0.005:
+                            bad("magnetic-j0-at-0", [Z, q], "1 +- 0.5%", v0, "print(T[%d].magnetic_ff[%d].j0_Q(0))" % (Z, q))
+                        if tuple(m.M) != c or not close(float(m.M_Q(0.5)), ff0(ref_c, 0.5), 1e-9):
+                            bad("magnetic-M-is-j0", [Z, q], c, tuple(m.M), "print(T[%d].magnetic_ff[%d].M)" % (Z, q))
+                    elif kind in ("j2", "j4", "j6"):
+                        cells += 1
+                        v0 = float(fn(0.0))
+                        if abs(v0) > 1e-12:
+                            bad("magnetic-jn-at-0:" + kind, [Z, q], 0.0, v0, "print(T[%d].magnetic_ff[%d].%s_Q(0))" % (Z, q, kind))
 
     # ---- the same quantities read through the other atom objects of an element (several types in one process):
-    # an isotope, an ion or an isotope ion has no entry of its own in these tables; what it serves is the entry of
-    # its element, or nothing (None / no attribute) - never other data
-    names = ("covalent_radius", "covalent_radius_uncertainty", "crystal_structure", "K_alpha", "K_beta1", "magnetic_ff")
-    for el in T:
-        Z = el.number
-        try:
-            own = [getattr(el, n, None) for n in names]
-        except Exception:
-            continue                    # reported above
-        atoms = [("isotope", A, 0) for A in el.isotopes]
-        for q in getattr(el, "ions", ()):
-            atoms.append(("ion", 0, q))
-            atoms += [("isotope-ion", A, q) for A in el.isotopes]
-        done = set()
-        for klass, A, q in atoms:
-            if klass in done:
-                continue
-            expr = "T[%d]" % Z + ("[%d]" % A if A else "") + (".ion[%d]" % q if q else "")
+    if want_group('atoms'):
+        # an isotope, an ion or an isotope ion has no entry of its own in these tables; what it serves is the entry of
+        # its element, or nothing (None / no attribute) - never other data
+        names = ("covalent_radius", "covalent_radius_uncertainty", "crystal_structure", "K_alpha", "K_beta1", "magnetic_ff")
+        for el in T:
+            Z = el.number
             try:
-                atom = el[A] if A else el
-                if q:
-                    atom = atom.ion[q]
-            except Exception as e:
-                bad("atom-raises", [Z, A, q], "an atom", "%s: %s" % (type(e).__name__, e), "print(%s)" % expr)
-                break
-            for n, want in zip(names, own):
-                cells += 1
-                try:
-                    got = getattr(atom, n, None)
-                except Exception:
-                    continue            # nothing served
-                if got is None:
+                own = [getattr(el, n, None) for n in names]
+            except Exception:
+                continue                    # reported above
+            atoms = [("isotope", A, 0) for A in el.isotopes]
+            for q in getattr(el, "ions", ()):
+                atoms.append(("ion", 0, q))
+                atoms += [("isotope-ion", A, q) for A in el.isotopes]
+            done = set()
+            for klass, A, q in atoms:
+                if klass in done:
                     continue
-                if n == "magnetic_ff" and q and isinstance(want, dict):
-                    # an ion may also be served its own charge state only (as a mapping or as the record)
-                    if isinstance(got, dict) and set(got) <= set(want) and all(same_data(got[k], want[k]) for k in got):
-                        continue
-                    if q in want and same_data(got, want[q]):
-                        continue
-                if not same_data(got, want):
-                    bad("%s-through-%s-differs-from-element" % (n.replace("_", "-"), klass), [Z, A, q],
-                        repr(want)[:300], repr(got)[:300],
-                        "print(getattr(%s, %r, None), getattr(T[%d], %r, None))" % (expr, n, Z, n))
-                    done.add(klass)     # one report per element and kind of atom
+                expr = "T[%d]" % Z + ("[%d]" % A if A else "") + (".ion[%d]" % q if q else "")
+                try:
+                    atom = el[A] if A else el
+                    if q:
+                        atom = atom.ion[q]
+                except Exception as e:
+                    bad("atom-raises", [Z, A, q], "an atom", "%s: %s" % (type(e).__name__, e), "print(%s)" % expr)
                     break
+                for n, want in zip(names, own):
+                    cells += 1
+                    try:
+                        got = getattr(atom, n, None)
+                    except Exception:
+                        continue            # nothing served
+                    if got is None:
+                        continue
+                    if n == "magnetic_ff" and q and isinstance(want, dict):
+                        # an ion may also be served its own charge state only (as a mapping or as the record)
+                        if isinstance(got, dict) and set(got) <= set(want) and all(same_data(got[k], want[k]) for k in got):
+                            continue
+                        if q in want and same_data(got, want[q]):
+                            continue
+                    if not same_data(got, want):
+                        bad("%s-through-%s-differs-from-element" % (n.replace("_", "-"), klass), [Z, A, q],
+                            repr(want)[:300], repr(got)[:300],
+                            "print(getattr(%s, %r, None), getattr(T[%d], %r, None))" % (expr, n, Z, n))
+                        done.add(klass)     # one report per element and kind of atom
+                        break
     return cells
 
 
@@ -325,7 +367,7 @@ def f0_closed(coef, q):
     return c + sum(ai * math.exp(-bi * s2) for ai, bi in zip(a, b))
 
 
-def sweep_f0_atoms(pt, T, label, path, acc):
+def sweep_f0_atoms(pt, T, label, path, acc, origin=None):
     """The Cromer-Mann entries as they are SERVED THROUGH THE ATOMS of table T: every element, every ion of it
     (all charges of element.ions), every isotope and every isotope ion evaluates .xray.f0(Q) to the closed form
     of the entry written for its element symbol and charge ('Fe', 'Fe2+', 'O1-'); an atom whose symbol+charge
@@ -350,9 +392,12 @@ def sweep_f0_atoms(pt, T, label, path, acc):
     used = set()
 
     def bad(rule, key, expected, observed, code):
-        acc.violation("%s:%s" % (rule, "public" if label == "public" else "private"),
-                      dict(path=list(path), table=label, key=key, rule=rule),
-                      expected=expected, observed=observed, standalone=_snippet(path, label, code))
+        if origin is None:
+            case, alone = dict(path=list(path), table=label, key=key, rule=rule), _snippet(path, label, code)
+        else:
+            case, alone = dict(origin[0], table=label, key=key, rule=rule), origin[1] + "T = tables[%r]\n" % label + code + "\n"
+        acc.violation("%s:%s" % (rule, "public" if label == "public" else "private"), case,
+                      expected=expected, observed=observed, standalone=alone)
 
     for el in T:
         Z, sym = el.number, el.symbol
@@ -466,18 +511,433 @@ def run_path(args):
     return acc
 
 
+# ------------------------------------------------------------------------------------------------
+# First access.  The ancillary attributes are installed as delayed-load properties; which of them a process reads
+# first, on which atom and by which means decides which code runs the loader.  Every attribute named in the
+# statement (and the units that go with it, and .xray as the way to the Cromer-Mann form factor of an atom) is the
+# FIRST access of a fresh forked interpreter, one process per (attribute, way of access, table configuration);
+# the value served by that very access, then the attribute over all elements, then the other attributes of the
+# group, then the complete sweep of the group are compared with the independent reader.
+NOT_JUDGED = "<not judged>"
+
+FT_GROUPS = [
+    # group, attributes, element with an entry, element without one, init of the group on a private table X
+    ("radius", ("covalent_radius", "covalent_radius_uncertainty", "covalent_radius_units"), "Cu", "Bk",
+     "from periodictable import covalent_radius as M; M.init(X)"),
+    ("crystal", ("crystal_structure",), "Cu", "Rf", "from periodictable import crystal_structure as M; M.init(X)"),
+    ("lines", ("K_alpha", "K_beta1", "K_alpha_units", "K_beta1_units"), "Cu", "H",
+     "from periodictable import xsf as M; M.init_spectral_lines(X)"),
+    ("magnetic", ("magnetic_ff",), "Fe", "H", "from periodictable import magnetic_ff as M; M.init(X)"),
+    ("xray", ("xray",), "Cu", None, "from periodictable import xsf as M; M.init(X)"),
+]
+FT_GROUP = dict((g[0], g) for g in FT_GROUPS)
+FT_NAMES = [(g[0], n) for g in FT_GROUPS for n in g[1]]
+FT_ATOMS = {"Cu": (63, 2), "Fe": (56, 2)}          # isotope and charge used by the via-* ways of access
+# way of access -> expression (S = symbol of the element with an entry, N = of the one without, A, Q = isotope, charge)
+FT_MODES = [
+    ("getattr", "getattr(T.%(S)s, %(name)r)"),
+    ("getattr-default", "getattr(T.%(S)s, %(name)r, None)"),
+    ("hasattr", "hasattr(T.%(S)s, %(name)r)"),
+    ("getattr-no-entry", "getattr(T.%(N)s, %(name)r)"),
+    ("hasattr-no-entry", "hasattr(T.%(N)s, %(name)r)"),
+    ("list", "T.list('symbol', %(name)r, format='%%s %%s')"),
+    ("via-isotope", "getattr(T.%(S)s[%(A)d], %(name)r, None)"),
+    ("via-ion", "getattr(T.%(S)s.ion[%(Q)d], %(name)r, None)"),
+    ("via-isotope-ion", "getattr(T.%(S)s[%(A)d].ion[%(Q)d], %(name)r, None)"),
+    ("every-element", "getattr(T[%(Z)d], %(name)r, None)"),            # thorough: each element is the first one asked
+]
+FT_MODE = dict(FT_MODES)
+XRAY_MODES = ("getattr", "getattr-default", "hasattr", "via-isotope", "via-ion", "via-isotope-ion")
+UNINIT_MODES = ("getattr-default", "hasattr", "list")
+FT_CONFIGS = ("public", "private-init", "private-uninit")
+
+
+def ft_expected(T, group):
+    """{attribute: {Z: value | None (no entry: None or no attribute) | NOT_JUDGED}} from the independent readers."""
+    out = {}
+    if group == "radius":
+        radii = rt.covalent_radii()
+        r, u, un = {}, {}, {}
+        for el in T:
+            Z = el.number
+            w = radii.get(Z)
+            if Z == 0:
+                r[Z] = u[Z] = un[Z] = NOT_JUDGED       # the neutron's 0.20 is a statement of the loader
+            elif w is None:
+                r[Z], u[Z], un[Z] = None, None, NOT_JUDGED
+            else:
+                r[Z], u[Z], un[Z] = w[1], w[2], "angstrom"
+        out = dict(covalent_radius=r, covalent_radius_uncertainty=u, covalent_radius_units=un)
+    elif group == "crystal":
+        exp = crystal_expected(T)
+        out = dict(crystal_structure=dict((el.number, exp[el.number][1] if el.number in exp else None) for el in T))
+    elif group == "lines":
+        lines = rt.spectral_lines()
+        ka, kb, un = {}, {}, {}
+        for el in T:
+            w = lines.get(el.symbol)
+            ka[el.number], kb[el.number] = (None, None) if w is None else w
+            un[el.number] = NOT_JUDGED if w is None else "angstrom"
+        out = dict(K_alpha=ka, K_beta1=kb, K_alpha_units=un, K_beta1_units=dict(un))
+    elif group == "magnetic":
+        want_m = {}
+        for kind, sym, q, c in rt.magnetic_records():
+            want_m.setdefault(sym, {}).setdefault(q, {}).setdefault(kind, []).append(c)
+        out = dict(magnetic_ff=dict((el.number, want_m.get(el.symbol)) for el in T))
+    elif group == "xray":
+        out = dict(xray=dict((el.number, NOT_JUDGED) for el in T))       # judged through f0 (sweep_f0_atoms)
+    else:
+        raise MachineryError("unknown group %r" % group)
+    return out
+
+
+def magnetic_matches(got, want):
+    if not isinstance(got, dict) or sorted(got) != sorted(want):
+        return False
+    for q in want:
+        for kind in ("j0", "J", "j2", "j4", "j6"):
+            alts = want[q].get(kind)
+            if alts is None:
+                if hasattr(got[q], kind):
+                    return False
+                continue
+            if not hasattr(got[q], kind):
+                return False
+            c = tuple(getattr(got[q], kind))
+            if not any(len(c) == 7 and all(close(x, y, 1e-12, 1e-15) for x, y in zip(c, a)) for a in alts):
+                return False
+    return True
+
+
+def ft_matches(name, got, want):
+    """got: the value served (None also stands for 'no attribute')."""
+    if want is NOT_JUDGED:
+        return True
+    if want is None:
+        return got is None or (name == "magnetic_ff" and isinstance(got, dict) and not got)
+    if got is None:
+        return False
+    try:
+        if name == "magnetic_ff":
+            return magnetic_matches(got, want)
+        if name.endswith("_units") or name == "crystal_structure":
+            return bool(got == want)
+        return close(got, want, 1e-12, 1e-15)
+    except Exception:
+        return False
+
+
+def ft_items(tier):
+    """(config, group, name, way of access, Z or None, second attribute or None)"""
+    items = []
+    for group, names, S, N, _ in FT_GROUPS:
+        modes = XRAY_MODES if group == "xray" else [m for m, _ in FT_MODES if m != "every-element"]
+        for name in names:
+            for config in ("public", "private-init"):
+                for mode in modes:
+                    items.append((config, group, name, mode, None, None))
+            for mode in UNINIT_MODES:
+                if group != "xray" or mode != "list":
+                    items.append(("private-uninit", group, name, mode, None, None))
+    if tier != "quick":
+        for group, name in FT_NAMES:
+            for group2, name2 in FT_NAMES:
+                if name2 != name:
+                    items.append(("public", group, name, "getattr-default", None, name2))
+            if group != "xray":
+                for Z in range(0, 119):
+                    items.append(("public", group, name, "every-element", Z, None))
+    return items
+
+
+def _ft_read(el, name):
+    """(value or None, exception other than AttributeError or None)"""
+    try:
+        return getattr(el, name), None
+    except AttributeError:
+        return None, None
+    except Exception as e:
+        return None, e
+
+
+def ft_case(item):
+    """One fresh process: the first access, then everything it could have influenced."""
+    idx, (config, group, name, mode, Z1, second) = item
+    import io, contextlib
+    acc = Acc()
+    pt = load_pt()
+    from periodictable import core, mass, density
+    _, names, S, N, init = FT_GROUP[group]
+    A, Q = FT_ATOMS[S]
+    case0 = dict(part="first-access", config=config, group=group, name=name, mode=mode)
+    if Z1 is not None:
+        case0["Z"] = Z1
+    if second is not None:
+        case0["then"] = second
+    tables = {"public": pt.elements}
+    pre = ["import periodictable as pt", "from periodictable import core, mass, density", "tables = {'public': pt.elements}"]
+    label = "public"
+    if config != "public":
+        X = core.PeriodicTable("c20-first-%d" % idx)
+        mass.init(X); density.init(X)
+        tables["T"] = X
+        label = "T"
+        pre.append("X = core.PeriodicTable('T'); mass.init(X); density.init(X); tables['T'] = X")
+        if config == "private-init":
+            # the first touch of the group in this process is its initialisation on the private table
+            try:
+                exec(init, dict(X=X))
+            except Exception as e:
+                acc.violation("first-access-raises:%s:private" % name, dict(case0, step="init"), "no exception",
+                              "%s: %s" % (type(e).__name__, e), standalone="\n".join(pre + [init]) + "\n")
+                return acc
+            pre.append(init)
+    T = tables[label]
+    expr = FT_MODE[mode] % dict(S=S, N=N, A=A, Q=Q, Z=Z1 if Z1 is not None else 0, name=name)
+    pre += ["T = tables[%r]" % label, "first = %s          # the first access of the process" % expr, "print(first)"]
+    prelude = "\n".join(pre) + "\n"
+    pubpriv = "public" if label == "public" else "private"
+
+    def bad(sig, case, expected, observed, extra=""):
+        acc.violation("%s:%s:%s" % (sig, name, case.get("judged", pubpriv)), case, expected=expected, observed=observed,
+                      standalone=prelude + extra)
+
+    # ---- the first access itself
+    first = err = None
+    absent = False
+    out = io.StringIO()
+    acc.transitions += 1
+    try:
+        with contextlib.redirect_stdout(out):
+            first = eval(expr, dict(T=T))
+    except AttributeError:
+        absent = True
+    except Exception as e:
+        err = e
+    listed = out.getvalue()
+    if config == "private-uninit":
+        # nothing was initialised on this table: what it serves is not judged; the public table is, below
+        acc.outcome("first-access:%s:uninitialised-private:not-judged" % mode)
+        judged = [("public", pt.elements)]
+    else:
+        judged = [(label, T)]
+        if err is not None:
+            bad("first-access-raises", case0, "a value or AttributeError", "%s: %s" % (type(err).__name__, err))
+            return acc
+
+    expected = dict((lab, ft_expected(tab, group)) for lab, tab in tables.items())
+    # the fixed choices of elements really are what they are meant to be
+    for lab, tab in tables.items():
+        for n in names:
+            e = expected[lab][n]
+            if group != "xray" and (e[getattr(tab, S).number] in (None, NOT_JUDGED)
+                                    or e[getattr(tab, N).number] not in (None, NOT_JUDGED)):
+                raise MachineryError("C20 first access: %s / %s are not an element with / without a %s entry" % (S, N, n))
+
+    if config != "private-uninit":
+        exp = expected[label][name]
+        elS, elN = getattr(T, S), (getattr(T, N) if N else None)
+        acc.states += 1
+        acc.nontrivial += 1
+        ok = True
+        if group == "xray":
+            ok = ft_xray_first(T, S, A, Q, mode, first, absent, case0, bad)
+        elif mode in ("getattr", "getattr-default", "every-element"):
+            el = T[Z1] if mode == "every-element" else elS
+            if not ft_matches(name, first, exp[el.number]):
+                ok = False
+                bad("first-access", dict(case0, key=[el.number]), exp[el.number], "no attribute" if absent else first)
+        elif mode == "getattr-no-entry":
+            if not ft_matches(name, first, exp[elN.number]):
+                ok = False
+                bad("first-access", dict(case0, key=[elN.number]), exp[elN.number], first)
+        elif mode in ("hasattr", "hasattr-no-entry"):
+            el = elS if mode == "hasattr" else elN
+            v, e2 = _ft_read(el, name)
+            if e2 is not None or not isinstance(first, bool) or (exp[el.number] not in (None, NOT_JUDGED) and not first) \
+                    or not ft_matches(name, v, exp[el.number]):
+                ok = False
+                bad("first-access", dict(case0, key=[el.number]), "hasattr %s, value %r" % (
+                    exp[el.number] not in (None,), exp[el.number]), "hasattr %r, then value %r %s" % (first, v, e2 or ""),
+                    "print(getattr(T[%d], %r, None))\n" % (el.number, name))
+        elif mode == "list":
+            ok = ft_judge_list(T, name, listed, exp, case0, bad)
+        else:                                    # via-isotope, via-ion, via-isotope-ion
+            own, e2 = _ft_read(elS, name)
+            fine = first is None or same_data(first, own)
+            if not fine and name == "magnetic_ff" and "ion" in mode and isinstance(own, dict):
+                fine = (isinstance(first, dict) and set(first) <= set(own) and all(same_data(first[k], own[k]) for k in first)) \
+                    or (Q in own and same_data(first, own[Q]))
+            if not fine or not ft_matches(name, own, exp[elS.number]):
+                ok = False
+                bad("first-access", dict(case0, key=[elS.number]), "the entry of the element (%r) or nothing" % (exp[elS.number],),
+                    "%r; the element then serves %r" % (first, own), "print(getattr(T.%s, %r, None))\n" % (S, name))
+        acc.outcome("first-access:%s:%s:%s" % (group, mode, "as-tabulated" if ok else "VIOLATION"))
+        if not ok:
+            return acc           # nothing is explored beyond a violating state
+
+    # ---- a second attribute right after the first (thorough)
+    order = [name] + [n for n in names if n != name]
+    if second is not None:
+        g2 = [g for g, n in FT_NAMES if n == second][0]
+        order = [second] if g2 != group else [second] + [n for n in order if n != second]
+        if g2 != group:
+            for lab, tab in tables.items():
+                expected[lab].update(ft_expected(tab, g2))
+    # ---- the attribute over all elements (before any other attribute is read), then the rest of the group
+    for lab, tab in judged:
+        case = dict(case0, judged=lab if lab == "public" else "private")
+        for n in order:
+            exp = expected[lab][n]
+            wrong = []
+            for el in tab:
+                acc.transitions += 1
+                acc.states += 1
+                acc.nontrivial += 1
+                v, e2 = _ft_read(el, n)
+                if e2 is not None or not ft_matches(n, v, exp[el.number]):
+                    wrong.append((el.number, exp[el.number], "%s: %s" % (type(e2).__name__, e2) if e2 else v))
+            if wrong:
+                acc.violation(("first-access:%s:%s" % (name, case["judged"])) if n == name else
+                              ("after-first-access:%s-then-%s:%s" % (name, n, case["judged"])),
+                              dict(case, key=[wrong[0][0]], read=n), expected=wrong[0][1],
+                              observed="%r (%d elements differ from the table)" % (wrong[0][2], len(wrong)),
+                              standalone=prelude + "T = tables[%r]\nprint([(el, getattr(el, %r, None)) for el in T])\n"
+                              % ("public" if lab == "public" else "T", n))
+                return acc
+    # ---- the complete sweep of the group(s) in every judged table; then the other table configuration
+    groups = [group] + ([g2] if second is not None and g2 != group else [])
+    if config == "public" and second is None and Z1 is None:
+        # ... and a private table created and initialised AFTER the first access of the public one
+        X = core.PeriodicTable("c20-first-%d-late" % idx)
+        mass.init(X); density.init(X)
+        try:
+            exec(init, dict(X=X))
+        except Exception as e:
+            acc.violation("first-access-raises:%s:private" % name, dict(case0, step="init-after"), "no exception",
+                          "%s: %s" % (type(e).__name__, e), standalone=prelude + init.replace("X", "X2") + "\n")
+            return acc
+        tables["T"] = X
+        prelude += "X = core.PeriodicTable('T'); mass.init(X); density.init(X); tables['T'] = X\n" + init + "\n"
+        judged.append(("T", X))
+    elif config == "private-init":
+        judged.append(("public", pt.elements))
+    for lab, tab in judged:
+        origin = (dict(case0), prelude)
+        cells = 0
+        for g in groups:
+            if g == "xray":
+                cells += sweep_f0_atoms(pt, tab, lab, (), acc, origin=origin)
+            else:
+                cells += sweep(pt, tab, lab, (), acc, groups=[g], origin=origin)
+        acc.states += cells; acc.nontrivial += cells; acc.transitions += cells
+        acc.outcome("first-access:swept:" + ("public" if lab == "public" else "private"))
+    acc.evaluations = acc.transitions
+    acc.count("first_access_processes")
+    if mode == "list" and config == "public":
+        acc.sample(case0)
+    return acc
+
+
+def ft_judge_list(T, name, listed, exp, case0, bad):
+    """T.list('symbol', name) prints one line per element that has the attribute (not None): symbol, value."""
+    rows = {}
+    for ln in listed.split("\n"):
+        f = ln.split(None, 1)
+        if f:
+            rows[f[0]] = f[1] if len(f) > 1 else ""
+    for el in T:
+        want = exp[el.number]
+        if want is NOT_JUDGED:
+            continue
+        got = rows.get(el.symbol)
+        fine = (got is None) if want is None else (got is not None)
+        if fine and want is not None and name not in ("crystal_structure", "magnetic_ff"):
+            try:
+                fine = (got.strip() == want) if name.endswith("_units") else close(float(got), want, 1e-9)
+            except ValueError:
+                fine = False
+        if not fine:
+            bad("first-access", dict(case0, key=[el.number]), "no line" if want is None else "a line with %r" % (want,),
+                "no line" if got is None else got[:200])
+            return False
+    return True
+
+
+def ft_xray_first(T, S, A, Q, mode, first, absent, case0, bad):
+    """The first access is .xray of an atom: the object served evaluates f0 of the entry of the atom's element+charge."""
+    from ..ref import xray as rx
+    el = getattr(T, S)
+    q = Q if "ion" in mode else 0
+    ent = [e for e in rx.f0_entries() if rx.f0_symbol_parts(e["symbol"]) == (S, q)]
+    if mode == "hasattr":
+        first = getattr(el, "xray", None) if first is True else None
+    if not ent:
+        return True                      # no entry: judged by the sweep (no number may be served)
+    coef = (ent[0]["a"], ent[0]["c"], ent[0]["b"])
+    try:
+        v = float(first.f0(0.5))
+    except Exception as e:
+        v = "%s: %s" % (type(e).__name__, e)
+    w = f0_closed(coef, 0.5)
+    if isinstance(v, str) or not abs(v - w) <= 1e-9 * f0_scale(coef, 0.5):
+        bad("first-access", dict(case0, key=[el.number, q]), w, "no attribute" if absent else v, "print(first.f0(0.5))\n")
+        return False
+    return True
+
+
+# ------------------------------------------------------------------------------------------------
+# the configuration paths of this check (kept here: mc/configs.py is shared with C06/C07 and grows with them)
+C20_QUICK_PATHS = [(), ("pub_lazy",), ("new_T",), ("pub_lazy", "new_T"), ("new_T", "new_T2"),
+                   ("new_T", "T_groups", "new_T2", "pub_lazy"),
+                   ("new_T", "T_groups", "T_custom", "new_T2", "pub_lazy"),
+                   ("pub_lazy", "new_T", "T_groups", "T_custom"),
+                   ("pub_custom", "new_T", "T_groups")]
+C20_EVENTS = ("pub_lazy", "new_T", "T_groups", "new_T2")
+
+
+def c20_all_paths():
+    """every ordering of up to four distinct events (T_groups and new_T2 need new_T first) + the fixed quick paths"""
+    out, frontier = [()], [()]
+    for _ in range(4):
+        nxt = [p + (e,) for p in frontier for e in C20_EVENTS
+               if e not in p and (e not in ("T_groups", "new_T2") or "new_T" in p)]
+        out += nxt
+        frontier = nxt
+    return out + [p for p in C20_QUICK_PATHS if p not in out]
+
+
 def run(ctx):
-    paths = QUICK_PATHS if ctx.quick else all_paths()
-    ctx.pmap(run_path, rotate(list(enumerate(paths)), ctx.seed))
-    ctx.acc.traces = ctx.acc.evaluations
+    # first: the first-access cases; each one is forked from this process, which has not imported the library
+    import sys
+    if "periodictable" in sys.modules:
+        raise MachineryError("C20: the library is already imported in the coordinating process")
+    from ..common import pmap
+    items = rotate(list(enumerate(ft_items(ctx.tier))), ctx.seed)
+    for acc in pmap(ft_case, items, ctx.jobs, "C20 first access", always_fork=True):
+        ctx.acc.merge(acc)
+    ctx.log("first access done: %d processes, %d violations" % (len(items), ctx.acc.vcount))
+    paths = C20_QUICK_PATHS if ctx.quick else c20_all_paths()
+    for acc in pmap(run_path, rotate(list(enumerate(paths)), ctx.seed), ctx.jobs, "C20 paths", always_fork=True):
+        ctx.acc.merge(acc)
+    ctx.acc.traces = ctx.acc.evaluations = ctx.acc.transitions
     ctx.acc.info["max_radii"] = len(rt.covalent_radii())
     ctx.acc.info["max_structure_slots"] = len(rt.crystal_structures())
     ctx.acc.info["max_emission_rows"] = len(rt.spectral_lines())
     ctx.acc.info["max_magnetic_records"] = len(rt.magnetic_records())
+    ctx.acc.info["max_first_access_cases"] = len(items)
 
 
 def replay(ctx, case, signature=None):
-    acc = run_path((5000, tuple(case["path"])))
+    from ..histmc import in_fork
+    if case.get("part") == "first-access":
+        item = (case["config"], case["group"], case["name"], case["mode"], case.get("Z"), case.get("then"))
+        acc = in_fork(lambda: ft_case((5000, item)))
+        for sig, rec in acc.viol.items():
+            if signature is None or sig == signature:
+                ctx.acc.viol[sig] = rec
+        return
+    acc = in_fork(lambda: run_path((5000, tuple(case["path"]))))
     for sig, rec in acc.viol.items():
         if rec["case"].get("rule") == case.get("rule") and rec["case"].get("table") == case.get("table"):
             ctx.acc.viol[sig] = rec
